@@ -73,6 +73,15 @@ func SignHashEnvelope(rand io.Reader, signer Signer, headers Headers, payload Ha
 
 	headers.Protected = setHashEnvelopeProtectedHeader(headers.Protected, &payload)
 	headers.RawProtected = nil
+	if len(headers.RawUnprotected) > 0 {
+		// RawUnprotected is emitted as is: the rules must hold for those bytes,
+		// not for the (ignored) Unprotected map.
+		var unprotected UnprotectedHeader
+		if err := decMode.Unmarshal(headers.RawUnprotected, &unprotected); err != nil {
+			return nil, fmt.Errorf("cbor: invalid unprotected header: %w", err)
+		}
+		headers.Unprotected = unprotected
+	}
 	if err := validateHashEnvelopeHeaders(&headers); err != nil {
 		return nil, err
 	}
